@@ -575,6 +575,10 @@ static int cb(void *c) {
     case 5:
       advance(a.a1 < 0 ? 0 : std::min<int64_t>(a.a1, 5000000));
       break;
+    case 7:  // the deprecated no-op of the public interface ("does nothing"): may be called anywhere, e.g. right after an interrupt request
+      shim_events_shutdown();
+      w.cls.insert("events_shutdown-called");
+      break;
     case 6:  // hand-over: cancel a pending registration and make the same one again at once (new owner of a connection)
       do_cancel((int)a.a1, true, x);
       do_register((int)a.a1, true);
@@ -684,7 +688,7 @@ static Outcome run_case(const Case &c, int oracle) {
       t.p1 = op.a[1];
       t.p2 = op.a[2];
       t.rc = (int)op.a[3];
-      for (size_t i = 4; i + 2 < op.a.size() && t.acts.size() < 6; i += 3) t.acts.push_back({(int)(((op.a[i] % 7) + 7) % 7), op.a[i + 1], op.a[i + 2]});
+      for (size_t i = 4; i + 2 < op.a.size() && t.acts.size() < 6; i += 3) t.acts.push_back({(int)(((op.a[i] % 8) + 8) % 8), op.a[i + 1], op.a[i + 2]});
       w.tpls.push_back(t);
     }
   long nruns = 0;
@@ -820,7 +824,13 @@ static rc::Gen<Case> gen_prog(int tier) {
       std::vector<int64_t> a = {kind, p1, p2, rcv};
       int na = *rc::gen::weightedElement<int>({{3, 0}, {3, 1}, {2, 2}, {1, 3}, {1, 4}});
       for (int i = 0; i < na; i++) {
-        int at = *rc::gen::weightedElement<int>({{5, 0}, {5, 1}, {1, 2}, {3, 3}, {1, 4}, {1, 5}, {2, 6}});
+        int at = *rc::gen::weightedElement<int>({{10, 0}, {10, 1}, {2, 2}, {6, 3}, {2, 4}, {2, 5}, {4, 6}, {1, 7}});
+        if (at == 4 && *range<int>(0, 2) == 0) {  // an interrupt request directly followed by the deprecated no-op
+          a.push_back(4);
+          a.push_back(0);
+          a.push_back(0);
+          at = 7;
+        }
         int64_t a1 = 0, a2 = 0;
         if (at <= 2 || at == 6)
           a1 = *range<int>(0, ntpl - 1);
